@@ -179,6 +179,29 @@ def main():
             chk.violation("uniform profiles (%s mode): the analytic and the numerical solve of the same arguments, run alternately, do not each reproduce their own first result (analytic %.3e, numerical %.3e)"
                           % ("footprint" if fp else "dispersion", float(np.max(np.abs(fa1 - fa2))), float(np.max(np.abs(fn1 - fn2)))),
                           {"kind": "analytic_numeric_history", "config": c}, klass={"check": "analytic_numeric_history"})
+    # uniform profiles whose values are whole numbers, handed over as INTEGER arrays (np.full(n, 2)): the same fields as with
+    # the float arrays, in both modes
+    for fp in (False, True):
+        c = {"nx": 12, "ny": 10, "ax": 2, "ay": 3, "halo": 6, "mx": 8, "my": 6, "xm": 8 if fp else 0, "ym": 9 if fp else 0, "fp": fp, "an": False, "nz": 16, "lv": [3, 9]}
+        kw = rs.solver_args(c, "const", "double")
+        q = rs.source(c, "smooth", rng)
+        nn = len(kw["z"])
+        for vals in ((3, 1, 2, 2, 2), (2, -1, 1, 3, 4)):
+            prof_i = tuple(np.full(nn, v_, dtype=np.int64) for v_ in vals)
+            prof_f = tuple(np.full(nn, float(v_)) for v_ in vals)
+            for an in (False, True):
+                nslot += 1
+                try:
+                    _, p_i, f_i = rs.solve3(q, dict(kw, profiles=prof_i), srf_bg_conc=0.4, analytic=an)
+                    _, p_f, f_f = rs.solve3(q, dict(kw, profiles=prof_f), srf_bg_conc=0.4, analytic=an)
+                except Exception as ex:  # noqa: BLE001
+                    chk.violation("uniform profiles as integer arrays (%s mode, analytic=%s) raised %r" % ("footprint" if fp else "dispersion", an, ex), {"kind": "integer_profiles", "values": vals}, klass={"check": "integer_profiles"})
+                    continue
+                sc_ = max(float(np.max(np.abs(f_f))), float(np.max(np.abs(p_f))), 1e-300)
+                d_ = max(float(np.max(np.abs(np.asarray(f_i) - f_f))), float(np.max(np.abs(np.asarray(p_i) - p_f)))) / sc_
+                if not (d_ <= 1e-10):
+                    chk.violation("uniform profiles (u, v, Kx, Ky, Kz) = %s given as integer arrays (%s mode, analytic=%s) differ from the same values as float arrays by %.3e relative"
+                                  % (vals, "footprint" if fp else "dispersion", an, d_), {"kind": "integer_profiles", "values": vals, "analytic": an}, klass={"check": "integer_profiles", "analytic": an})
     chk.extra["numeric_vs_analytic_slots"] = nslot
     chk.traces += len(r.emitted)
     chk.extra["probe_points"] = len(r.emitted)
